@@ -1,8 +1,23 @@
 use super::scratch::DecoderScratch;
+use crate::common::MAX_BLOCK_SIZE;
 use crate::decoding::errors::ExecuteSequencesError;
 
 /// Take the provided decoder and execute the sequences stored within
 pub fn execute_sequences(scratch: &mut DecoderScratch) -> Result<(), ExecuteSequencesError> {
+    // A block must not regenerate more than MAX_BLOCK_SIZE bytes, check this before touching the buffer
+    let regenerated_size = scratch
+        .sequences
+        .iter()
+        .fold(scratch.literals_buffer.len() as u64, |sum, seq| {
+            sum + u64::from(seq.ml)
+        });
+    if regenerated_size > u64::from(MAX_BLOCK_SIZE) {
+        return Err(ExecuteSequencesError::BlockTooBig {
+            size: regenerated_size,
+            max: MAX_BLOCK_SIZE,
+        });
+    }
+
     let mut literals_copy_counter = 0;
     let old_buffer_size = scratch.buffer.len();
     let mut seq_sum = 0;
